@@ -700,6 +700,26 @@ def sample_reads(world, sample):
                     present = _intervals(gene["pregions"], flags, M, M)
                     _tile(cols, L, step, phase_rng.randint(0, step - 1), present,
                           f"{gene['name']}u{ui}p{c}", reads)
+    # aligner-style soft clips: a fraction of the reads gets its first / last bases clipped
+    if sample.get("softclip"):
+        srng = random.Random(f"{sample.get('phase_seed', 0)}:softclip")
+        out = []
+        for rs, ops_, seq, nm in reads:
+            if srng.random() < sample["softclip"] and ops_ and ops_[0][0] == 0 and ops_[0][1] > 12 \
+                    and ops_[-1][0] == 0 and ops_[-1][1] > 12:
+                k = srng.randint(1, 6)
+                ops2 = list(ops_)
+                if srng.random() < 0.5:
+                    ops2[0] = (0, ops2[0][1] - k)
+                    ops2.insert(0, (4, k))
+                    rs += k
+                else:
+                    ops2[-1] = (0, ops2[-1][1] - k)
+                    ops2.append((4, k))
+                out.append((rs, ops2, seq, nm))
+            else:
+                out.append((rs, ops_, seq, nm))
+        reads = out
     # depth noise: thin out the reads starting inside a region of one locus
     for th in sample.get("thin", []):
         gene = next(g for g in world["genes"] if g["name"] == th["gene"])
